@@ -6,6 +6,12 @@ import (
 )
 
 var vHarnesses = map[string]func(p []int){
+	"H_C09_seq":     func(p []int) { H_C09_seq(p[0]) },
+	"H_C09_single":  func(p []int) { H_C09_single() },
+	"H_C09_fast":    func(p []int) { H_C09_fast(p[0]) },
+	"H_C10_chunked": func(p []int) { H_C10_chunked(p[0], p[1]) },
+	"H_C08_fast":        func(p []int) { H_C08_fast(p[0]) },
+	"H_C08_worker_step": func(p []int) { H_C08_worker_step(p[0], p[1]) },
 	"H_C11_single": func(p []int) { H_C11_single() },
 	"H_C07_workflow": func(p []int) { H_C07_workflow(p[0]) },
 	"H_C12_threshold":        func(p []int) { H_C12_threshold(p[0], p[1]) },
